@@ -203,7 +203,12 @@ def check_tuple(ctx, fix_slice, shape, t, cases, where):
     if len(out) != len(shape):
         ctx.oracle_fail("fix_slice result does not have one entry per axis", case, repr(out), len(shape))
         return
-    got = x[out]
+    try:
+        got = x[out]
+    except Exception as e:       # a result numpy cannot apply to the shape it was normalised for
+        ctx.oracle_fail("fix_slice result cannot index an array of the shape it was computed for", case,
+                        "%s: %s" % (type(e).__name__, repr(out)), exp.tolist())
+        return
     if got.shape != exp.shape or not (got == exp).all():
         ctx.oracle_fail("fix_slice changes the selection", case, got.tolist(), exp.tolist())
     ctx.count(("tup", shape, repr(t)), len(t) > 0,
